@@ -94,6 +94,14 @@ func init() {
 		Components: []string{"real: netctx.Conn, netctx.PacketConn, connctx.ConnCtx (their watcher goroutines are workers)", "stub: simnet stream/packet pipes with deadlines, partial writes, short reads, a ground-truth byte log and an injectable SetDeadline error"},
 		Assumptions: append([]string{"after an injected SetDeadline failure only 'the operation returns' is required for that run", "one reader and one writer worker per end, so the leftover-deadline check right after a return cannot race with the next operation of the same direction"}, stdAssume...),
 		Rule: "stream and packet flavours; per end a reader and a writer issuing <=4 operations each with contexts that are background, already cancelled, cancelled by a canceller worker after 0..1ms, or WithTimeout on the fake clock; pipe capacities 1..4096 (back-pressure, partial writes), short reads. Non-trivial: >=2 workers and >=1 context switch; distinct = schedule hash"})
+	udpRule := "listener over the stub kernel in plain and batch mode, backlog 1..8, optional accept filter on the first payload byte; <=5 remote sockets sending tagged datagrams with gaps 0..5ms; acceptor, one reader per accepted connection (closing after k reads or reading until error), racy closers for connections and listener, kernel faults (drop/duplicate/delay-reorder), injected socket read error. Non-trivial: >=2 workers and >=1 context switch; distinct = schedule hash"
+	udpPkgs := []string{"udp", "packetio", "deadline", "zzverif/simnet"}
+	def("C11", &propCfg{Dir: "c11", Pkgs: udpPkgs,
+		Components: []string{"real: udp listener/Conn/BatchConn, packetio.Buffer, deadline.Deadline", "stub: simnet UDP kernel (port table, receive queues, recvmmsg/sendmmsg-style batch calls, fault plan); it records what ReadFrom/ReadBatch returned, which is the arrival order the property is stated against"},
+		Assumptions: append([]string{"a datagram that reached the socket but no connection must be explained by one of: unread when its connection was closed, refused by the filter, backlog possibly full (over-approximated from stamps), listener closing, connection nobody accepted before a racy listener close, injected socket error"}, stdAssume...), Rule: udpRule})
+	def("C12", &propCfg{Dir: "c11", Pkgs: udpPkgs,
+		Components: []string{"real: udp listener/Conn/BatchConn, packetio.Buffer, deadline.Deadline", "stub: simnet UDP kernel; it records every Close of the shared socket"},
+		Assumptions: stdAssume, Rule: udpRule})
 	def("C09", &propCfg{
 		Components:  []string{"real: deadline.Deadline over simrt.Timer (AfterFunc callbacks are workers parked at their entry, so a dispatched-but-unrun callback can be overtaken by further Set calls)", "stub: none"},
 		Assumptions: stdAssume,
